@@ -1,0 +1,47 @@
+//go:build verif
+// +build verif
+
+package blockchain
+
+import "github.com/dappledger/AnnChain/gemmill/types"
+
+// Constructors and a decoder for the block-sync messages, whose types are unexported: the
+// verification harness plays scripted peers on the real channel.
+
+func VerifBlockResponse(b *types.Block) interface{} {
+	return struct{ BlockchainMessage }{&bcBlockResponseMessage{Block: b}}
+}
+
+func VerifStatusResponse(height int64) interface{} {
+	return struct{ BlockchainMessage }{&bcStatusResponseMessage{height}}
+}
+
+func VerifBlockRequest(height int64) interface{} {
+	return struct{ BlockchainMessage }{&bcBlockRequestMessage{height}}
+}
+
+// VerifDecode returns the kind of a message ("block-request", "block-response", "status-request",
+// "status-response", "" when it does not decode) and the height it names.
+func VerifDecode(bz []byte) (kind string, height int64, block *types.Block) {
+	if len(bz) == 0 {
+		return "", 0, nil
+	}
+	_, msg, err := DecodeMessage(bz)
+	if err != nil {
+		return "", 0, nil
+	}
+	switch m := msg.(type) {
+	case *bcBlockRequestMessage:
+		return "block-request", m.Height, nil
+	case *bcBlockResponseMessage:
+		if m.Block != nil && m.Block.Header != nil {
+			return "block-response", m.Block.Height, m.Block
+		}
+		return "block-response", 0, m.Block
+	case *bcStatusRequestMessage:
+		return "status-request", m.Height, nil
+	case *bcStatusResponseMessage:
+		return "status-response", m.Height, nil
+	}
+	return "", 0, nil
+}
